@@ -508,6 +508,7 @@ func valuePool() []val {
 	p := []val{
 		vNull(),
 		vInt(0), vInt(1), vInt(-1), vInt(2), vInt(-2), vInt(7), vInt(63), vInt(64), vInt(16777217), vInt(-2147483648), vInt(9007199254740993), vInt(int(mx)), vInt(int(mn)),
+		vLong(1152921573326323713), vLong(-1152921573326323713), vInt(36028799166447617), vLong(16777217), vLong(33554435),
 		vLong(0), vLong(1), vLong(-1), vLong(3), vLong(64), vLong(2147483648), vLong(-9007199254740993), vLong(mx), vLong(mn), vLong(-9223372036854775807),
 		vFloat(0), vFloat(float32(math.Copysign(0, -1))), vFloat(1), vFloat(0.5), vFloat(1.5), vFloat(2.5), vFloat(-2.5), vFloat(1e-3), vFloat(1e10), vFloat(16777216), vFloat(math.MaxFloat32), vFloat(math.SmallestNonzeroFloat32), vFloat(float32(math.Inf(1))), vFloat(float32(math.NaN())),
 		vDouble(0), vDouble(math.Copysign(0, -1)), vDouble(1), vDouble(-1), vDouble(0.5), vDouble(1.5), vDouble(2.5), vDouble(-2.5), vDouble(1e-3), vDouble(1e10), vDouble(9007199254740992), vDouble(math.MaxFloat64), vDouble(math.SmallestNonzeroFloat64), vDouble(math.Inf(1)), vDouble(math.Inf(-1)), vDouble(math.NaN()),
@@ -515,6 +516,8 @@ func valuePool() []val {
 		vBool(true), vBool(false),
 		vSpan(0), vSpan(time.Millisecond), vSpan(-time.Millisecond), vSpan(time.Second), vSpan(36 * time.Hour), vSpan(1), vSpan(time.Duration(1<<43) * time.Millisecond),
 		vTime(time.Time{}), vTime(time.Unix(0, 0).UTC()), vTime(time.Unix(1, 0).UTC()), vTime(time.Date(2020, 2, 29, 12, 0, 0, 0, time.UTC)), vTime(local), vTime(time.Unix(1600000000, 123456789).UTC()),
+		vDouble(0.3), vDouble(0.1 + 0.2), vDouble(math.Nextafter(1, 2)), vDouble(math.Nextafter(1e10, 0)), vFloat(math.Nextafter32(1, 2)), vFloat(math.Nextafter32(0.5, 0)),
+		vTime(time.Date(2020, 2, 29, 12, 0, 0, 0, time.UTC).In(east3)), vTime(time.Date(2024, 1, 1, 1, 30, 0, 0, east3)), vLong(1582977600), vInt(1582977600), vTime(time.Unix(1600000000, 0).UTC()), vLong(1600000000),
 		vArray(), vArray(vInt(1)), vArray(vInt(1), vString("a"), vNull()), vArray(vArray(vInt(1)), vArray(vInt(2))), vArray(vInt(0), vInt(1), vInt(2), vInt(3), vString("4"), vDouble(5), vBool(true), vNull()),
 	}
 	return p
